@@ -158,6 +158,8 @@ def run_check(pid, P, tier, seed, work, t0, no_evidence):
         # undecided: a failing input on the real code still decides the property (sound: it is a real execution);
         # thorough: run the witness search anyway, as extra exploration of the real code
         thorough_search = replay_run.search(pid, P, [], REPO, VERIF, seed, tier, kres)
+        if thorough_search and thorough_search.get("module_error"):
+            undecided.append("witness search did not run (replay module failed to build or start): %s" % (thorough_search.get("note") or "")[-300:])
         if thorough_search and thorough_search.get("found"):
             violations = 1
             os.makedirs(os.path.join(VERIF, "replays"), exist_ok=True)
